@@ -118,7 +118,7 @@ void hashmap_delete(HashMap *map, char *key) { int i = hm_find(map, key, hm_strl
 #ifndef FORM
 #define FORM 0
 #endif
-struct IN_t { int q0, p, q1, q2, n; } IN;
+struct IN_t { int q0, p, q1, q2, n; int depth, la, da, lb, db, lc, dc; } IN;
 struct IN_t nondet_IN(void);
 
 static File F = { .name = "f.c", .display_name = "f.c", .file_no = 1, .contents = "" };
@@ -179,5 +179,38 @@ void h_line_c11(void) {
   VASSERT(r1->val == IN.n + (IN.q1 - IN.p - 1), "C11 6.10.4p3: line after `#line n` has number n (so line q has n + (q-p-1))");
   VASSERT(r2->val == IN.n + (IN.q2 - IN.p - 1), "C11 6.10.4p3 on a later line");
   VASSERT(rx->line_no == IN.n + (IN.q1 - IN.p - 1), "C11 6.10.4p3 for the diagnostic/.loc line of an ordinary token");
+  VCOVER();
+}
+
+// __LINE__ / __FILE__ spelled in the body of a macro that is defined in ANOTHER file (a header) than the one using
+// it, with different #line offsets in the files: C11 6.10.8.1 - __LINE__ is the presumed line of the current source
+// line, i.e. of the outermost macro invocation (origin chain of depth 0..2), in THAT file's numbering; __FILE__ is
+// that file's presumed name.
+static File FA = { .name = "def.h", .display_name = "def.h", .file_no = 2, .contents = "" };
+static File FB = { .name = "mid.h", .display_name = "mid.h", .file_no = 3, .contents = "" };
+static File FC = { .name = "use.c", .display_name = "use.c", .file_no = 1, .contents = "" };
+void h_line_macro_origin(void) {
+  HAVOC_IN();
+  __CPROVER_assume(0 <= IN.depth && IN.depth <= 2);
+  __CPROVER_assume(1 <= IN.la && IN.la <= (1 << 20) && 1 <= IN.lb && IN.lb <= (1 << 20) && 1 <= IN.lc && IN.lc <= (1 << 20));
+  __CPROVER_assume(-IN.la < IN.da && IN.da <= (1 << 30) && -IN.lb < IN.db && IN.db <= (1 << 30) && -IN.lc < IN.dc && IN.dc <= (1 << 30));
+  FA.line_delta = IN.da; FB.line_delta = IN.db; FC.line_delta = IN.dc;
+  Token *a = calloc(1, sizeof(Token)), *b = calloc(1, sizeof(Token)), *c = calloc(1, sizeof(Token));
+  a->kind = TK_IDENT; a->loc = "__LINE__"; a->len = 8; a->file = &FA; a->line_no = IN.la;
+  b->kind = TK_IDENT; b->loc = "M"; b->len = 1; b->file = &FB; b->line_no = IN.lb;
+  c->kind = TK_IDENT; c->loc = "N"; c->len = 1; c->file = &FC; c->line_no = IN.lc;
+  // depth 0: __LINE__ written directly in def.h; 1: in the body of M used in mid.h; 2: M used in the body of N used in use.c
+  Token *outer = a;
+  if (IN.depth >= 1) { a->origin = b; outer = b; }
+  if (IN.depth >= 2) { b->origin = c; outer = c; }
+  Token *r = line_macro(a);
+  VASSERT(verif_fmt_int == outer->line_no + outer->file->line_delta,
+          "__LINE__ in a macro body == presumed line (physical + that file's #line offset) of the outermost invocation");
+  Token *f = file_macro(a);
+  // new_str_token: quote_string(name) (real) is handed to new_file()/tokenize() (stubs): the text is "name" in quotes
+  char *txt = f->file->contents, *want = outer->file->display_name;
+  bool same = txt[0] == '"';
+  for (int k = 0; k < 5; k++) same = same && txt[1 + k] == want[k];
+  VASSERT(same && txt[6] == '"', "__FILE__ in a macro body == presumed name of the file of the outermost invocation");
   VCOVER();
 }
